@@ -1232,6 +1232,17 @@ func ShouldFoldBinaryOperatorWhenMinifying(binary *EBinary) bool {
 
 // This function intentionally avoids mutating the input AST so it can be
 // called after the AST has been frozen (i.e. after parsing ends).
+// JavaScript's "**" operator differs from Go's "math.Pow" in two cases: the
+// result is NaN when the exponent is NaN (Go returns 1 when the base is 1) and
+// when the exponent is infinite and the absolute value of the base is 1 (Go
+// returns 1). See "Number::exponentiate" in the specification.
+func jsPow(base float64, exponent float64) float64 {
+	if math.IsNaN(exponent) || (math.IsInf(exponent, 0) && math.Abs(base) == 1) {
+		return math.NaN()
+	}
+	return math.Pow(base, exponent)
+}
+
 func FoldBinaryOperator(loc logger.Loc, e *EBinary) Expr {
 	switch e.Op {
 	case BinOpAdd:
@@ -1264,7 +1275,7 @@ func FoldBinaryOperator(loc logger.Loc, e *EBinary) Expr {
 
 	case BinOpPow:
 		if left, right, ok := extractNumericValues(e.Left, e.Right); ok {
-			return Expr{Loc: loc, Data: &ENumber{Value: math.Pow(left, right)}}
+			return Expr{Loc: loc, Data: &ENumber{Value: jsPow(left, right)}}
 		}
 
 	case BinOpShl:
